@@ -311,9 +311,53 @@ func (b *Builder) Validate() error {
 	return nil
 }
 
+// addLookBoundaries adds to the byte class set the boundaries required by the
+// look-around assertions present in the automaton.
+//
+// The byte classes promise that two bytes of one class never cause different
+// transitions in any DFA state. The ranges of the consuming states alone do not
+// guarantee that once the NFA contains StateLook: a DFA built on this NFA also
+// evaluates the assertions against the byte it is about to consume (the byte
+// after the position) and the byte it has just consumed (the byte before it):
+//
+//   - (?m)^ / (?m)$ (LookStartLine, LookEndLine) hold after / before '\n' only,
+//     so '\n' must be a class of its own;
+//   - \b / \B (LookWordBoundary, LookNoWordBoundary) depend on whether the byte
+//     is a word byte [0-9A-Za-z_], so no class may contain both a word byte and
+//     a non-word byte: every maximal run of word bytes is registered as a range.
+//
+// \A and \z (LookStartText, LookEndText) do not depend on any byte value.
+// This mirrors regex-automata's LookSet::add_to_byteset. It is a no-op for an
+// automaton without look-around, e.g. every reverse automaton (nfa.Reverse
+// turns assertions into epsilon edges).
+func (b *Builder) addLookBoundaries() {
+	var line, word bool
+	for i := range b.states {
+		if b.states[i].kind != StateLook {
+			continue
+		}
+		switch b.states[i].look {
+		case LookStartLine, LookEndLine:
+			line = true
+		case LookWordBoundary, LookNoWordBoundary:
+			word = true
+		}
+	}
+	if line {
+		b.byteClassSet.SetByte('\n')
+	}
+	if word {
+		b.byteClassSet.SetWordByteRanges()
+	}
+}
+
 // Build finalizes and returns the constructed NFA.
 // Options can be provided to set anchored/utf8 modes and pattern count.
 func (b *Builder) Build(opts ...BuildOption) (*NFA, error) {
+	// Look-around assertions make the automaton sensitive to bytes that no
+	// consuming state distinguishes: split the byte classes accordingly.
+	b.addLookBoundaries()
+
 	// Apply default options
 	nfa := &NFA{
 		states:          b.states,
